@@ -5,9 +5,12 @@ cos/sin of an angle are an abstract point (c, s) of the unit circle (pyvc.narr.t
 """
 import z3
 
+from pyvc import ext_C12
 from pyvc.narr import trig
 from pyvc.spec import Registry
 from pyvc.values import NArr, Sym, fresh_name, to_z3
+
+ext_C12.install()  # reduced-angle facts of cos / sin, copysign / mod / fmod / floor on real scalars (named library models, see pyvc/ext_C12.py)
 
 UT = "swcgeom/utils/transforms.py"
 GEO = "swcgeom/transforms/geometry.py"
